@@ -319,6 +319,8 @@ class SymPattern:
         return SymMatch(s, pos, e, g, self.ngroups, self.names, real_m.lastgroup)
 
     def match(self, s, pos=0, *a):
+        if s_is_sym(s) and len(a) == 1 and isinstance(a[0], int) and a[0] >= len(s):
+            a = ()  # endpos at (or past) the end of the text: same as no endpos (Lark's Scanner passes text.end)
         if not s_is_sym(s) or a:
             return self.real.match(pin_str(s, "re.match(args)") if s_is_sym(s) else s, pos, *a)
         return self._match_at(s, pos)
